@@ -30,14 +30,14 @@ def generate(sd, num, max_ops, profile, fees, two_mints=True, mint_amts=(5, 21, 
     return res, dt, consts
 
 
-def run_whist(d, histories, name="whist", workers=10):
+def run_whist(d, histories, name="whist", workers=10, dleq=None):
     build_harness()
     hin = os.path.join(d, name + ".json")
     tout = os.path.join(d, name + ".ndjson")
     with open(hin, "w") as f:
         json.dump(histories, f)
     rc, out = run([os.path.join(BIN, "vharness"), "whist", "-in", hin, "-out", tout, "-scratch", scratch_dir(d) + "-w", "-seed", str(seed()),
-                   "-workers", str(workers)], env=goenv(), timeout=3400)
+                   "-workers", str(workers)] + (["-dleq", dleq] if dleq else []), env=goenv(), timeout=3400)
     if rc != 0:
         raise Infra("wallet driver failed (rc=%d):\n%s" % (rc, out[-3000:]))
     m = re.search(r"histories=(\d+) events=(\d+)", out)
